@@ -334,7 +334,8 @@ class Program:
         self.summaries = {}
         self.enum_variants = {"Option": [["None", "Some"]], "Result": [["Ok", "Err"]], "ControlFlow": [["Continue", "Break"]],
                               "Ordering": [["Less", "Equal", "Greater"]], "ErrorKind": [["NotFound", "Other"]],
-                              "Cow": [["Borrowed", "Owned"]]}
+                              "Cow": [["Borrowed", "Owned"]], "Entry": [["Occupied", "Vacant"]],
+                              "Bound": [["Included", "Excluded", "Unbounded"]]}
         for k, v in (enum_variants or {}).items():
             if not v:
                 continue
